@@ -128,6 +128,14 @@ def ledgerPut (l : List Ledger) (e : Ledger) : List Ledger :=
 
 def fee : Int := 10000
 
+def lowerByte (b : UInt8) : UInt8 := if 65 ≤ b.toNat ∧ b.toNat ≤ 90 then b + 32 else b
+
+/-- The session a claim key is about, with the application key and the chain read AS KEYS, not as
+texts: the harness names a non-canonical hex spelling of application `a0` `a0^U` / `a0^M`, and chain
+identifiers are hex strings. -/
+def canonKey (k : ClaimKey) : ClaimKey :=
+  { k with app := k.app.takeWhile (· ≠ 94), chain := k.chain.map lowerByte }
+
 /-- why an accepted claim is not acceptable (signature suffix) -/
 def claimReason (h : Int) (m : MsgClaim) (e : ClaimEnv) : String :=
   if e.dup then "duplicate-tx"
@@ -144,6 +152,7 @@ def claimReason (h : Int) (m : MsgClaim) (e : ClaimEnv) : String :=
   else if e.maxRelays < m.total then "over-allowance"
   else if e.chainsOverLimit then "app-chains-over-limit"
   else if e.sessionPre.isSome then "invalid-session"
+  else if !e.headerCanonical then "header-not-canonical"
   else if !e.inSession then "node-not-in-session"
   else "?"
 
@@ -171,7 +180,7 @@ def stepClaim (d : DState) (h : Int) (pre _post : List String) (impl : Option Co
       { dup := ← kvBool pre "dup", vb := vb, anteOk := ← kvBool pre "ante", sessCtxOk := ← kvBool pre "sctx", sessB := ← kvInt pre "B",
         minProofs := ← kvInt pre "min", chainSupported := ← kvBool pre "chain", nodeFound := ← kvBool pre "node",
         appFound := ← kvBool pre "app", maxRelays := ← kvInt pre "max", chainsOverLimit := ← kvBool pre "chlim",
-        sessionPre := sessPre, inSession := ← kvBool pre "insess", curW := ← kvInt pre "W", curB := ← kvInt pre "cB",
+        sessionPre := sessPre, headerCanonical := ← kvBool pre "canon", inSession := ← kvBool pre "insess", curW := ← kvInt pre "W", curB := ← kvInt pre "cB",
         claimExp := ← kvInt pre "E" }
     pure ({ key := key, total := total, root := Bytes.ofString rootu, expiration := exp }, e, signer)
   match parsed with
@@ -192,7 +201,9 @@ def stepClaim (d : DState) (h : Int) (pre _post : List String) (impl : Option Co
         chk (!(accepted && !(d.claims.all fun q => q.1 = m.key || Claims.get p.claims q.1 = some q.2)))
           (.propfail "claim-changed-other-entries" s!"h={h} key={renderKey m.key}"),
         chk (!(!accepted && !claimsEq d.claims p.claims)) (.propfail "rejected-claim-changed-store" s!"h={h} key={renderKey m.key}"),
-        chk (p.supply = d.supply) (.propfail "mint-outside-proof" s!"h={h} claim tx changed the supply by {p.supply - d.supply}") ]
+        chk (p.supply = d.supply) (.propfail "mint-outside-proof" s!"h={h} claim tx changed the supply by {p.supply - d.supply}"),
+        chk (!(accepted && d.ledger.any fun l => l.key ≠ m.key && canonKey l.key = canonKey m.key && l.accepts > 0))
+          (.propfail "session-claimed-under-two-spellings" s!"h={h} key={renderKey m.key}: the same (servicer, application key, chain, session, type) was already claimed under another spelling of the header") ]
     -- model vs implementation
     let feePaid := !e.dup && e.vb.isNone && e.anteOk
     let expBal := if feePaid then balAdd (balAdd d.bal signer (-fee)) "m_fee_collector" fee else d.bal
@@ -260,6 +271,10 @@ def stepProof (d : DState) (h : Int) (pre _post : List String) (impl : Option Co
             s!"h={h} key={renderKey m.key}: {l'.pays} payments for {l'.accepts} accepted claim(s)"),
         chk (d.claims.all fun q => q.1 = m.key || (Claims.get p.claims q.1).isSome)
           (.propfail s!"foreign-claim-deleted{sfx}" s!"h={h} proof for {renderKey m.key} removed another claim: before={renderClaims d.claims} after={renderClaims p.claims}"),
+        chk (!(paid && d.ledger.any fun o => o.key ≠ m.key && canonKey o.key = canonKey m.key && o.pays > 0))
+          (.propfail "session-rewarded-per-spelling" s!"h={h} key={renderKey m.key}: the same session was already rewarded under another spelling of the header"),
+        chk (!(paid && typed && !l'.mistyped && l.pays ≥ 1 && l'.pays ≤ l'.accepts))
+          (.propfail "session-rewarded-again-after-reclaim" s!"h={h} key={renderKey m.key}: payment no. {l'.pays} for the same (servicer, application, chain, session) after it was claimed again"),
         chk (!(paid && (Claims.get p.claims m.key).isSome))
           (.propfail s!"claim-survived-proof{sfx}" s!"h={h} key={renderKey m.key} ds={ds}: the paid claim is still in the store"),
         chk (p.claims.all fun q => Claims.get d.claims q.1 = some q.2)
